@@ -89,6 +89,8 @@ def _plan(draw, max_rows):
         hx["args"]["ddof"] = draw(st.sampled_from([0, 1]))
     plan = {"frame": {"n": n, "cols": cols}, "by": [f"g{j}" for j in draw(st.permutations(range(nk)))], "hx": hx}
     draw(gen.decorate(plan["frame"]))
+    if plan["frame"].get("via") == "marked_by_group_by":
+        del plan["frame"]["via"]              # this check sets and clears marks itself (see stale_mark)
     if 2 <= n <= 40 and draw(st.integers(0, 5)) == 0:
         # the receiver is the direct result of a sort by exactly the group columns, in drawn directions: the rows are
         # laid out in that order already (reference sort), so the sort is the identity on positions and the plan stands
